@@ -449,3 +449,82 @@ func (k *Kernel) Close() {
 		k.Coll.Close()
 	}
 }
+
+// Offer is one packet of a scripted arrival sequence.
+type Offer struct {
+	T   uint64 // value bpf_ktime_get_ns returns for this packet
+	Len uint32 // skb->len
+}
+
+// Sequence runs a TC program on one frame for every offer (clock and skb->len scripted) and returns the verdicts.
+func (r *Runner) Sequence(prog string, frame []byte, placement int, offers []Offer) ([]byte, error) {
+	if r.dead != nil {
+		return nil, r.dead
+	}
+	r.note("sequence prog=%s n=%d frame=%x\n", prog, len(offers), frame)
+	r.in.WriteByte('S')
+	r.wblob([]byte(prog))
+	r.w32(uint32(placement))
+	r.wblob(frame)
+	r.w32(uint32(len(offers)))
+	var b [12]byte
+	for _, o := range offers {
+		binary.LittleEndian.PutUint64(b[0:], o.T)
+		binary.LittleEndian.PutUint32(b[8:], o.Len)
+		r.in.Write(b[:])
+	}
+	r.in.Flush()
+	n, err := r.r32()
+	if err != nil {
+		return nil, r.fail(err)
+	}
+	v := make([]byte, n)
+	if _, err := io.ReadFull(r.out, v); err != nil {
+		return nil, r.fail(err)
+	}
+	return v, nil
+}
+
+// TraceEnt is one offer of a backlogged run.
+type TraceEnt struct {
+	T       uint64
+	Len     uint32
+	Verdict byte
+}
+
+// Backlog drives a source that always has a packet waiting: an admitted packet is followed by the next
+// one at the same instant, a dropped one is re-offered gap ns later, until tEnd or maxN offers.
+func (r *Runner) Backlog(prog string, frame []byte, placement int, t0, tEnd, gap uint64, maxN int, sizes []uint32) ([]TraceEnt, error) {
+	if r.dead != nil {
+		return nil, r.dead
+	}
+	r.note("backlog prog=%s t0=%d tend=%d gap=%d sizes=%v frame=%x\n", prog, t0, tEnd, gap, sizes, frame)
+	r.in.WriteByte('K')
+	r.wblob([]byte(prog))
+	r.w32(uint32(placement))
+	r.wblob(frame)
+	var b [8]byte
+	for _, v := range []uint64{t0, tEnd, gap} {
+		binary.LittleEndian.PutUint64(b[:], v)
+		r.in.Write(b[:])
+	}
+	r.w32(uint32(maxN))
+	r.w32(uint32(len(sizes)))
+	for _, s := range sizes {
+		r.w32(s)
+	}
+	r.in.Flush()
+	n, err := r.r32()
+	if err != nil {
+		return nil, r.fail(err)
+	}
+	out := make([]TraceEnt, n)
+	var e [13]byte
+	for i := range out {
+		if _, err := io.ReadFull(r.out, e[:]); err != nil {
+			return nil, r.fail(err)
+		}
+		out[i] = TraceEnt{binary.LittleEndian.Uint64(e[0:]), binary.LittleEndian.Uint32(e[8:]), e[12]}
+	}
+	return out, nil
+}
